@@ -140,6 +140,62 @@ class SymSeq:
         return f'SymSeq({self.len}, {self.arr})'
 
 
+class BagSeq(SymSeq):
+    """a SymSeq that also carries the multiplicity of every value, cnt: PyV -> Int (used for collections.deque work lists).
+    Representation invariant, kept by construction by append / pop_last: cnt(x) = #{i < len : arr[i] = x}.  After a havoc only
+    first-order consequences of it are assumed (`consequences`): counts are non-negative, an empty sequence has no member, every
+    element has a positive count."""
+    def __init__(self, length, arr, cnt):
+        super().__init__(length, arr)
+        self.cnt = cnt
+
+    @staticmethod
+    def empty():
+        return BagSeq(z3.IntVal(0), z3.K(IntS, NONE), z3.K(PyV, z3.IntVal(0)))
+
+    @staticmethod
+    def fresh(state, hint):
+        n = state.fresh_int(hint + '_len')
+        state.assume(n >= 0)
+        b = BagSeq(n, state.fresh_array(hint + '_a', IntS, PyV), state.fresh_array(hint + '_cnt', PyV, IntS))
+        for f in b.consequences():
+            state.assume(f)
+        return b
+
+    @staticmethod
+    def of(state, seq, hint='bag'):
+        """the bag of an existing symbolic sequence: its multiplicities exist; only their consequences are known"""
+        b = BagSeq(seq.len, seq.arr, state.fresh_array(hint + '_cnt', PyV, IntS))
+        for f in b.consequences():
+            state.assume(f)
+        return b
+
+    def consequences(self):
+        from .values import FA
+        x = z3.Const('bagx', PyV)
+        i = z3.Int('bagi')
+        c = lambda v: z3.Select(self.cnt, v)
+        return [FA([x], c(x) >= 0, patterns=[c(x)]),
+                z3.Implies(self.len == 0, FA([x], c(x) == 0, patterns=[c(x)])),
+                FA([i], z3.Implies(z3.And(i >= 0, i < self.len), c(self.at(i)) >= 1), patterns=[self.at(i)])]
+
+    def count(self, v):
+        return z3.Select(self.cnt, v)
+
+    def append(self, v):
+        return BagSeq(self.len + 1, z3.Store(self.arr, self.len, v), z3.Store(self.cnt, v, z3.Select(self.cnt, v) + 1))
+
+    def pop_last(self):
+        v = self.at(self.len - 1)
+        return BagSeq(self.len - 1, self.arr, z3.Store(self.cnt, v, z3.Select(self.cnt, v) - 1)), v
+
+    def havoc(self, state, hint):
+        return BagSeq.fresh(state, hint)
+
+    def __repr__(self):
+        return f'BagSeq({self.len}, {self.arr}, {self.cnt})'
+
+
 # --------------------------------------------------------------------------------------
 # effects
 # --------------------------------------------------------------------------------------
